@@ -56,10 +56,11 @@ Theorem C03_strings_never_promote_with_scalars :
 Proof. exact promote_scalar_string_isolated. Qed.
 Print Assumptions C03_strings_never_promote_with_scalars.
 
-(* FINDING (known): the public result_type does promote a string with a non-string *)
-Theorem C03_result_type_string_isolation_refuted :
-  exists a b, is_str_dtype a <> is_str_dtype b /\ exists t, result_type [a; b] = Ok t.
-Proof. exact result_type_string_refuted. Qed.
+(* ... and the public result_type refuses them as well (repaired: fixed C03-result-type-promotes-strings) *)
+Theorem C03_result_type_never_promotes_strings_with_non_strings :
+  forall ds t, result_type ds = Ok t -> forall d, In d ds -> is_str_dtype d = is_str_dtype t.
+Proof. exact result_type_string_isolated. Qed.
+Print Assumptions C03_result_type_never_promotes_strings_with_non_strings.
 
 (* non-vacuity *)
 Example C03_ex1 : result_type [DNull CI8; DCore CU8; DCore CI8] = Ok (DNull CI16).
